@@ -1917,7 +1917,8 @@ class Interp(object):
     def exec_For(self, node, frame):
         lc = self._loop_contract(node, frame)
         it = self.eval(node.iter, frame)
-        if lc is not None:
+        if lc is not None and not ((isinstance(it, PyList) and it.items is not None) or isinstance(it, (tuple, str))):
+            # a loop contract is needed (and used) only for sequences of unknown length; a concrete list is simply iterated
             return lc.run_for(self, node, frame, it)
         items = self.iter_values(it)
         for x in items:
